@@ -136,6 +136,7 @@ def run(s):
     if len(keys) != 15:
         s.crashed.append(("keys", "voigt.py yields %d shear keys" % len(keys)))
     csym = tensor_symbols()
+    csym2 = {k: z3.Real("d%d%d" % k.voigt) for k in all_keys()}
     strain0 = numpy.array([[0.2, 0.3, 0.5], [0.25, 0.35, 0.4]])
 
     # ---------------- 1/2. fictitious strain and its eigen-frame [F over 15 keys, on the real code]
@@ -180,11 +181,31 @@ def run(s):
                 o.modulus = Recording({k: Sc(v) for k, v in csym.items()})
                 o.modulus_rotated = Recording(rotated_forms(T, csym))
                 res = o.get_target_elastic_modulus()
-                return res, o
+                asked1, asked1r = list(o.modulus.asked), list(o.modulus_rotated.asked)
+                # the same solver object given a SECOND tensor (the interface of the property: .modulus / .modulus_rotated are set, then the
+                # target is asked for): the answer must be the second tensor's component -- no value may survive from the first evaluation
+                o.modulus = Recording({k: Sc(v) for k, v in csym2.items()})
+                o.modulus_rotated = Recording(rotated_forms(T, csym2))
+                res2 = o.get_target_elastic_modulus()
+                o.modulus.asked[:0], o.modulus_rotated.asked[:0] = asked1, asked1r
+                return res, o, res2
             paths = symnp.Paths([], max_paths=256)
             outs = paths.run(thunk)
         bound = abs_sum(csym)
-        for pc, (res, o) in outs:
+        for pc, (res, o, res2) in outs:
+            if canary is None:
+                try:
+                    d2 = symnp.term(res2) - csym2[key]
+                except Exception:
+                    return core.refuted("symnp", "%r: second result is %r" % (key, type(res2).__name__), witness_id="type2%r" % (key,))
+                b2 = abs_sum(csym2) + bound
+                r = smt.prove(z3.And(d2 <= TOL * b2, -d2 <= TOL * b2), pc, tier=tier, name="shear-second%r" % (key,))
+                if r.status != core.PROVED:
+                    r.detail = "key %r: a solver object evaluated a second time, with another tensor, does not return that tensor's component (state kept from the first evaluation) | %s" % (key, r.detail)
+                    if r.status == core.REFUTED:
+                        r.replay = native_history(shear, key)
+                        r.witness_id = "solver-second-use%r" % (key,)
+                    return r
             asked = list(o.modulus.asked)
             if key in asked:
                 return core.refuted("finite", "the solver for %r asks for its own target among the known components" % (key,),
@@ -219,6 +240,19 @@ def run(s):
     from cij.util import c_
     s.canary("C03.canary.half_multiplicity", lambda: solver(c_(4, 4), canary=lambda cs, k: cs[k] / 2))
     s.canary("C03.canary.wrong_component", lambda: solver(c_(1, 4), canary=lambda cs, k: cs[c_(2, 4)]))
+
+    def histories():
+        """[F over the 15 keys, numeric] one solver object used for two tensors; two solver objects for the same key and different strain fields in one
+        process: frame orthonormal, rotated strain fractions = diag(T^t diag(e) T), target recovered each time"""
+        rnd = numpy.random.RandomState(5)
+        for key in keys:
+            r = native_history(shear, key, rnd)
+            if r.get("reproduced"):
+                return core.refuted("finite", "history on the shear solver for %r: %s" % (key, r), witness_id="history%r" % (key,), replay=r)
+        return core.proved("finite", "15 keys x (two tensors on one object, three objects with different strain fields): target recovered to 1e-9, frames orthonormal, "
+                                     "strain_rotated = diag(T^t diag(e) T)")
+    s.oblige("C03.repeated_use(one object twice, several objects per key)", histories,
+             [CLS + "get_elastic_modulus", CLS + "get_elastic_modulus_rotated", CLS + "strain_rotated", CLS + "transformation_matrix"], kind="finite")
 
     def multiplicity():
         for key in keys:
@@ -286,7 +320,7 @@ def run(s):
     s.oblige("C03.strain_rotated.independent_of_eigenvector_sign_and_order", sign_and_order, [CLS + "strain_rotated"])
     s.canary("C03.canary.strain_rotated_rows_instead_of_columns", lambda: symnp.prove_code_equals(
         lambda: strain_rotated(Tsym), lambda: rot_spec([[tz[j][i] for j in range(3)] for i in range(3)]), [], tier=tier))
-    s.min_obligations = 20
+    s.min_obligations = 21
 
 
 def sum_(it):
@@ -313,6 +347,44 @@ def _pick_col(tz, i, a):
     if z3.is_int_value(a):
         return tz[i][a.as_long()]
     return z3.If(a == 0, tz[i][0], z3.If(a == 1, tz[i][1], tz[i][2]))
+
+
+def native_history(shear, key, rnd=None):
+    """histories on the real solver: several objects for one key (different strain fields), each evaluated for two tensors"""
+    from cij.util import c_
+    rnd = rnd or numpy.random.RandomState(11)
+    S = shear.ShearElasticModulusPhononContribution
+    keys = all_keys()
+    for n_obj in range(3):
+        e = rnd.uniform(0.1, 1.0, size=(2, 3))
+        e = e / e.sum(axis=1)[:, None]
+        o = S(e.copy(), key)
+        try:
+            T = numpy.asarray(o.transformation_matrix, dtype=float)
+            sr = numpy.asarray(o.strain_rotated, dtype=float)
+        except Exception as ex:
+            return {"reproduced": True, "object": n_obj, "raised": repr(ex)}
+        if T.shape != (3, 3) or not numpy.allclose(T.T @ T, numpy.eye(3), atol=1e-10):
+            return {"reproduced": True, "object": n_obj, "observed": "frame of solver object #%d for this key is not orthonormal" % (n_obj + 1), "T": T.tolist()}
+        want = numpy.einsum("ia,vi->va", T * T, e)
+        if sr.shape != want.shape or not numpy.allclose(sr, want, atol=1e-10):
+            return {"reproduced": True, "object": n_obj, "observed": "strain_rotated of solver object #%d: %s" % (n_obj + 1, sr.tolist()), "expected": want.tolist(), "strain": e.tolist()}
+        for n_eval in range(2):
+            vals = {k: float(rnd.uniform(-1, 1)) * 10 ** float(rnd.uniform(-2, 3)) for k in keys}
+            C = {(i, j, k, l): vals[c_(i, j, k, l)] for i, j, k, l in itertools.product((1, 2, 3), repeat=4)}
+            rot = {}
+            for a in range(3):
+                for b in range(a, 3):
+                    rot[c_(a + 1, a + 1, b + 1, b + 1)] = sum(T[i - 1, a] * T[j - 1, a] * T[k - 1, b] * T[l - 1, b] * v for (i, j, k, l), v in C.items())
+            o.modulus, o.modulus_rotated = dict(vals), rot
+            try:
+                got = float(o.get_target_elastic_modulus())
+            except Exception as ex:
+                return {"reproduced": True, "object": n_obj, "evaluation": n_eval, "raised": repr(ex)}
+            if abs(got - vals[key]) > 1e-9 * sum(abs(v) for v in vals.values()):
+                return {"reproduced": True, "object": n_obj + 1, "evaluation_on_that_object": n_eval + 1, "observed": got, "expected": vals[key],
+                        "tensor": {repr(k): v for k, v in vals.items()}}
+    return {"reproduced": False}
 
 
 def native_replay(shear, key, model):
